@@ -4,7 +4,10 @@ go 1.26.8
 
 require (
 	github.com/aldas/go-modbus-client v0.0.0
+	simsync v0.0.0
 	github.com/anishathalye/porcupine v1.3.0
 )
 
 replace github.com/aldas/go-modbus-client => /repo
+
+replace simsync => ../simsync
